@@ -73,6 +73,14 @@ func (in *Interp) mutexOf(p Value) *mutexSt {
 	return s
 }
 
+// gatePassed records the order in which goroutines that went through vx.Gate enter their next critical section.
+func (in *Interp) gatePassed() {
+	if g := in.cur; g != nil && g.gateKey != "" {
+		in.gateOrder = append(in.gateOrder, g.gateKey)
+		g.gateKey = ""
+	}
+}
+
 func (in *Interp) byteTerms(v Value) ([]*smt.Term, bool) {
 	if v.R == nil {
 		return nil, true
@@ -97,6 +105,7 @@ func init() {
 				return Value{}, false
 			}
 			m.writer = true
+			in.gatePassed()
 			return Value{}, true
 		},
 		"(*sync.RWMutex).Unlock": func(in *Interp, fr *Frame, a []Value) (Value, bool) {
@@ -131,6 +140,7 @@ func init() {
 				return Value{}, false
 			}
 			m.writer = true
+			in.gatePassed()
 			return Value{}, true
 		},
 		"(*sync.Mutex).Unlock": func(in *Interp, fr *Frame, a []Value) (Value, bool) {
